@@ -425,6 +425,17 @@ func extractHub() {
 				lits = append(lits, n.(*ast.BasicLit).Value)
 			}
 			set(r.name+"_literals", strings.Join(lits, " "))
+			// how the fixed-size arguments are filled: `var x [32]T` declarations and copy(...) calls
+			var cps []string
+			for _, c := range callsTo(fd.Body, "copy") {
+				cps = append(cps, src(c))
+			}
+			set(r.name+"_copies", strings.Join(cps, " | "))
+			var decls []string
+			for _, n := range collect(fd.Body, func(n ast.Node) bool { d, ok := n.(*ast.DeclStmt); return ok && strings.Contains(src(d), "[32]") }) {
+				decls = append(decls, src(n))
+			}
+			set(r.name+"_fixed_decls", strings.Join(decls, " | "))
 			firstOr(r.name+"_pack", func() []string {
 				var l []string
 				for _, c := range callsTo(fd.Body, "packCall") {
